@@ -408,7 +408,7 @@ pub fn run(ctx: &Ctx) -> (Stats, Spec) {
     st.merge(crate::report::merge_all(parts));
     // fixed language probes: every operator x boundary constants on a 2-operand list
     for cs in ["<=", "<", ">=", ">", "="] {
-        for c in ["0", "1", "2", "3", "2147483648", "9223372036854775807", "9223372036854775808", "18446744073709551615"] {
+        for c in ["0", "1", "2", "3", "00", "01", "0002", "00000000000000000001", "000000000000000000001", "0000000000000000000000000000002", "000000000000000000000000000000000000000000000000000000000000000", "2147483648", "9223372036854775807", "9223372036854775808", "18446744073709551615"] {
             check_text(&mut st, &format!("[a, b] {} {}", cs, c));
             check_text(&mut st, &format!("[] {} {}", cs, c));
         }
